@@ -342,6 +342,12 @@ static Boolean ChkAdr(Word Mask, tStrComp const* pArg) {
     CorrMode12(Mask, ModWReg, ModXReg);
     CorrMode8(Mask, ModIWReg, ModIReg);
 
+    /* operand evaluation failed (error already reported): callers that only
+       test the return value must not go on and encode a stale value */
+
+    if (AdrType == ModNone) {
+        return False;
+    }
     if ((AdrType != ModNone) && !(Mask & (1 << AdrType))) {
         WrStrErrorPos(ErrNum_InvAddrMode, pArg);
         AdrType = ModNone;
